@@ -55,10 +55,10 @@ def params(draw, row, N, cplx, windows=None):
         return {"window": draw(st.sampled_from(windows or WINDOWS_SIMPLE)), "detrend": draw(st.sampled_from([None, None, "mean"]))}
     if row == "pcorrelogram":
         return {"lag": draw(st.integers(1, max(1, min((N - 1) // 2, 40)))), "window": draw(st.sampled_from(windows or WINDOWS_SIMPLE))}
-    if row == "pburg":
-        return {"order": draw(st.integers(1, min(N // 2, 12)))}
-    if row == "pyule":
-        return {"order": draw(st.integers(1, min(N // 2, 12)))}
+    if row in ("pburg", "pyule"):
+        # mostly small orders (they shrink well and keep the runs fast); one case in five up to 32
+        hi = min(N // 2, 32 if draw(st.integers(0, 4)) == 4 else 12)
+        return {"order": draw(st.integers(1, hi))}
     if row in ("pcovar", "pmodcovar"):
         return {"order": draw(st.integers(1, min((N - 1) // 2, 10)))}     # N - p > p
     if row == "parma":
@@ -75,7 +75,8 @@ def params(draw, row, N, cplx, windows=None):
         M = draw(st.integers(Q + 1, max(Q + 1, min(N // 2, 20))))
         return {"Q": Q, "M": M}
     if row == "pminvar":
-        return {"order": draw(st.integers(2, min(N // 2, 12)))}
+        hi = min(N // 2, 24 if draw(st.integers(0, 4)) == 4 else 12)
+        return {"order": draw(st.integers(2, hi))}
     if row in ("pmusic", "pev"):
         IP = draw(st.integers(2, max(2, min(N // 3, 10))))
         return {"IP": IP, "NSIG": draw(st.integers(1 if IP > 1 else 0, IP - 1))}
@@ -118,6 +119,19 @@ def min_nfft(row, N, p):
     if row in ("pmusic", "pev"):
         return p["IP"] + 1
     raise ValueError(row)
+
+
+# how a caller spells a boolean option: the literal, a numpy boolean (the result of a comparison on numpy values)
+# or, for 'off', 0.  Drawn as a string so that the case stays JSON-serialisable.
+flag_forms = st.sampled_from(["py", "py", "py", "np", "np", "int"])
+
+
+def flag(value, form="py"):
+    if form == "np":
+        return np.bool_(value)
+    if form == "int" and not value:
+        return 0          # "off" spelled 0; "on" spelled 1 is not used (the option is documented as a boolean)
+    return bool(value)
 
 
 def build(row, x, p, NFFT=None, sampling=1.0, scale_by_freq=False):
